@@ -22,7 +22,6 @@ import (
 
 	"github.com/AdguardTeam/AdGuardDNS/verif/tbench"
 	"github.com/AdguardTeam/AdGuardDNS/verif/vkit"
-	"github.com/miekg/dns"
 )
 
 // lowProcs is the GOMAXPROCS value of the pinned part of the run: with few Ps
@@ -215,7 +214,7 @@ func TestCheck(t *testing.T) {
 	r.Require("judged_family:doh-get-short-param", int64(50*nShapes))
 	r.Require("upstream_judged:udp", int64(r.N(300, 3000)))
 	r.Require("upstream_judged:tcp", int64(r.N(300, 3000)))
-	r.Require("upstream_control_ok_equal_to_own_bytes", int64(r.N(20, 200)))
+	r.Require("upstream_control_ok_equal_to_own_bytes", int64(r.N(10, 100)))
 	r.Require("upstream_error_for_undecodable_reply", int64(r.N(200, 2000)))
 	r.Require("upstream_differential", int64(r.N(100, 400)))
 }
@@ -265,8 +264,13 @@ func (e *env) freshPhase(pr *pathRun) {
 		bt := p.build(e.ids.get())
 		px := expectOn(pr.p, &bt)
 		meta := map[string]any{"instance": "fresh (listener started anew, the probe is the first message it receives)", "probe_index": i}
-		if ud, ok := d.(*udpDriver); ok {
-			ud.onLate = e.lateJudge(pr.p)
+		switch td := d.(type) {
+		case *udpDriver:
+			td.onLate = e.lateJudge(pr.p)
+		case *streamDriver:
+			td.alone = true
+		case *doqDriver:
+			td.alone = true
 		}
 
 		o := d.probe(&bt, px)
@@ -343,7 +347,9 @@ func (e *env) runHistory(pr *pathRun, h history, reps int, rng *rand.Rand) {
 			// One more message of other traffic right before the probe (on
 			// UDP the driver sends it right after the probe instead, which is
 			// "right before" the next one).
-			if _, isUDP := d.(*udpDriver); !isUDP {
+			if ud, isUDP := d.(*udpDriver); isUDP {
+				ud.kind = kind
+			} else {
 				e.sendOther(p, d, kind, "before-probe")
 			}
 
@@ -538,6 +544,14 @@ func (e *env) evaluate(p *pathDef, pp *probe, bt *built, px *pexp, o *observatio
 		}
 
 		bad = true
+		stale := "without"
+		for _, pb := range ps {
+			if pb.kind == "stale-bytes" {
+				stale = "with"
+			}
+		}
+		e.r.Bucket("refuted:"+p.name+":"+inst+":"+stale+"-bytes-of-other-traffic", 1)
+
 		wit := e.witness(p, pp, bt, px, o, meta)
 		wit["judged_frame"] = fi
 		wit["response_hex"] = hex.EncodeToString(raw)
@@ -667,5 +681,3 @@ func (e *env) sample(p *pathDef, pp *probe, bt *built, px *pexp, o *observation,
 
 	e.r.Sample(e.witness(p, pp, bt, px, o, meta))
 }
-
-var _ = dns.TypeA
